@@ -179,6 +179,8 @@ class PathClient(Client):
         else:
             # store into an attribute / subscript: conditions on exactly that expression are stale
             ts = src_of(target)
+            if isinstance(stmt, ast.Delete) and isinstance(target, ast.Subscript):
+                ts = src_of(target.value)        # elements removed: everything known about the container is stale
             s = s.drop_if(lambda k, v: k[0] == 'cond' and ts in k[1])
         return [self.on_store(it, s, target, value, stmt)]
 
